@@ -61,7 +61,7 @@
 
 From Coq Require Import PrimFloat.
 From Coq Require Import ZArith List Bool Reals Lra Lia Psatz Arith.
-From BZ Require Import Base.Ops Hand.Nodelist Hand.Heap Proofs.C08 Proofs.C07.
+From BZ Require Import Base.Ops Hand.Nodelist Hand.Heap Proofs.C08 Proofs.C07 Gen.Line Gen.Quad Gen.Cubic Proofs.Bridge.
 Import ListNotations.
 
 Theorem C07_step_inv :
@@ -327,6 +327,13 @@ Theorem C07_append_closed_refuted :
   (exists (vals : list (segment float)) (a b : pt float),
   view FOps (fst (step FOps r3_st (OAppend 0 1))) 0 = Some (vals, true) /\ wf_chain vals /\ ends vals = Some (a, b) /\ a <> b).
 Proof. exact (@append_closed_refuted). Qed.
+(* the hand models ARE the definitions regenerated from the source (Proofs/Bridge.v), for every scalar carrier *)
+Theorem C07_seg_clone_is_generated :
+  forall (T : Type) (O : Ops T) (s : segment T), seg_clone O s = match s with SLine l => SLine (Line_clone O l) | SQuad q => SQuad (Quad_clone O q) | SCubic c => SCubic (Cubic_clone O c) end.
+Proof. exact @seg_clone_gen. Qed.
+Theorem C07_seg_rounded_is_generated :
+  forall (T : Type) (O : Ops T) (s : segment T), seg_rounded O s = match s with SLine l => SLine (Line_round O l) | SQuad q => SQuad (Quad_round O q) | SCubic c => SCubic (Cubic_round O c) end.
+Proof. exact @seg_rounded_gen. Qed.
 
 Print Assumptions C07_step_inv.
 Print Assumptions C07_run_inv.
@@ -359,3 +366,5 @@ Print Assumptions C07_exR_safe.
 Print Assumptions C07_append_round_refuted.
 Print Assumptions C07_flatten_round_refuted.
 Print Assumptions C07_append_closed_refuted.
+Print Assumptions C07_seg_clone_is_generated.
+Print Assumptions C07_seg_rounded_is_generated.
